@@ -127,7 +127,18 @@ func init() {
 			fs = efivarfs.Open(testfs.NewTestFS())
 		}
 		var out []string
-		for _, op := range ops {
+		// held results: beside the read that is compared at once, every read operation reads the variable once more
+		// through the same store with an Unmarshallable that keeps the bytes it is handed (holdValue, no copy). What it
+		// holds is reported as it was when the read returned, and looked at again after every later operation.
+		type heldRead struct {
+			op   int
+			snap []byte
+			hv   *holdValue
+		}
+		var helds []heldRead
+		var heldOut []string
+		changed := ""
+		for i, op := range ops {
 			v := storeVarDesc(op.Var, op.Desc)
 			switch op.K {
 			case "W":
@@ -148,9 +159,19 @@ func init() {
 				out = append(out, errCls(fs.WriteSignedUpdate(v, m, key, cert)))
 			case "G":
 				out = append(out, storeRead(fs, op.Var, op.Desc))
+				hv := &holdValue{}
+				if err := fs.GetVar(v, hv); err == nil && hv.called {
+					helds = append(helds, heldRead{i, append([]byte{}, hv.got...), hv})
+					heldOut = append(heldOut, fmt.Sprintf("%d:%s", i, hx(hv.got)))
+				}
+			}
+			for _, h := range helds {
+				if changed == "" && !bytes.Equal(h.hv.got, h.snap) {
+					changed = fmt.Sprintf("%d %d %s %s", h.op, i, hx(h.snap), hx(h.hv.got))
+				}
 			}
 		}
-		return "ok", strings.Join(out, "/")
+		return "ok", strings.Join(out, "/") + "#held " + strings.Join(heldOut, ",") + "#changed " + changed
 	}
 }
 
@@ -178,7 +199,22 @@ func c12Eval(c *Ctx, cs Case) {
 		fail("the history ended the worker: "+res.Class, res.Out+res.Panic, "every operation returns", "c12."+res.Class)
 		return
 	}
-	outs := strings.Split(res.Out, "/")
+	// the worker's answer: the results of the operations, then the held results (op:value as it was when the read
+	// returned) and the first held value that changed afterwards
+	resOut, heldPart, changedPart := res.Out, "", ""
+	if i := strings.Index(resOut, "#held "); i >= 0 {
+		resOut, heldPart = resOut[:i], resOut[i+len("#held "):]
+		if j := strings.Index(heldPart, "#changed "); j >= 0 {
+			heldPart, changedPart = heldPart[:j], heldPart[j+len("#changed "):]
+		}
+	}
+	heldAt := map[int]string{}
+	for _, h := range strings.Split(heldPart, ",") {
+		if f := strings.SplitN(h, ":", 2); len(f) == 2 {
+			heldAt[atoi(f[0])] = f[1]
+		}
+	}
+	outs := strings.Split(resOut, "/")
 	// register oracle
 	last := map[string]string{}
 	for k, v := range pre {
@@ -212,6 +248,9 @@ func c12Eval(c *Ctx, cs Case) {
 				w = "raw " + v // a database of list types the decoder does not handle: compared as bytes
 			}
 			want = append(want, w)
+			if h, has := heldAt[i]; !has || hx(unhx(h)) != hx(unhx(v)) {
+				fail(fmt.Sprintf("op %d: reading %s with an Unmarshallable that keeps the bytes it is handed does not return the value of the most recent write", i, op.Var), h, v, "")
+			}
 			if outs[i] != w {
 				m := ""
 				if isSecureBootVar(op.Var) || true {
@@ -219,6 +258,12 @@ func c12Eval(c *Ctx, cs Case) {
 				}
 				fail(fmt.Sprintf("op %d: reading %s does not return the value of the most recent write", i, op.Var), outs[i], w, m)
 			}
+		}
+	}
+	if changedPart != "" {
+		f := strings.Fields(changedPart)
+		if len(f) == 4 {
+			fail(fmt.Sprintf("the value returned by the read at op %s changed when op %s ran: a read returns the value of the most recent write before it, whatever is read or written afterwards", f[0], f[1]), "now "+f[3], "still "+f[2], "")
 		}
 	}
 	// correspondence with the Lean store model
@@ -243,8 +288,8 @@ func c12Eval(c *Ctx, cs Case) {
 		ps = strings.Join(pres, ";")
 	}
 	m := c.Drv.Ask("store.history", ps, strings.Join(enc, ";"))
-	if m != res.Out {
-		c.Fail(Failure{Kind: "tie", What: "store history: results differ from the Lean store model", Case: cs, Model: clip(m), Go: clip(res.Out)})
+	if m != resOut {
+		c.Fail(Failure{Kind: "tie", What: "store history: results differ from the Lean store model", Case: cs, Model: clip(m), Go: clip(resOut)})
 	}
 }
 
@@ -324,7 +369,7 @@ func c12Gen(c *Ctx) {
 
 func init() {
 	register("C12", &PropDef{
-		Rule:   "histories of 2..10 (thorough ..30) operations over {PK, KEK, db, dbx, two ordinary variables, one ordinary variable declared with attribute mask 0}: plain writes, signed updates (RSA-2048) and reads, each operation describing its variable either with the package-level efivar definition or (in two histories out of three, mixed within the history) with a caller-built Efivar value of equal name, GUID (util.StringToGUID of the canonical text, or a copy of the GUID value) and attributes, reads then going through GetVar with that description; values that grow, shrink (to the empty database / empty value) and repeat (5 databases from empty to two lists with certificates, 5 raw values from 0 to 300 bytes); empty and pre-populated stores (With(...)); run in a worker process because a write may end the process on an unrepaired tree. Every read is compared with the register oracle and the Lean store model. Non-trivial: at least two operations; distinct = distinct histories.",
+		Rule:   "histories of 2..10 (thorough ..30) operations over {PK, KEK, db, dbx, two ordinary variables, one ordinary variable declared with attribute mask 0}: plain writes, signed updates (RSA-2048) and reads, each operation describing its variable either with the package-level efivar definition or (in two histories out of three, mixed within the history) with a caller-built Efivar value of equal name, GUID (util.StringToGUID of the canonical text, or a copy of the GUID value) and attributes, reads then going through GetVar with that description; values that grow, shrink (to the empty database / empty value) and repeat (5 databases from empty to two lists with certificates, 5 raw values from 0 to 300 bytes); empty and pre-populated stores (With(...)); run in a worker process because a write may end the process on an unrepaired tree. Every read is compared with the register oracle and the Lean store model. Held results: every read operation also reads the variable through the same store with a caller-supplied Unmarshallable that keeps the bytes it is handed (no copy); the held value must be the value of the most recent write when the read returns and must still be that value after every later operation of the history (reads and writes of other variables, and of the same variable after a new write). Non-trivial: at least two operations; distinct = distinct histories.",
 		Assume: []string{"variables without the APPEND_WRITE attribute (the property's register semantics)", "values of secure-boot variables are well-formed signature databases (any list type of ValidEFISignatureSchemes, including types the decoder does not handle; those are compared as bytes)"},
 		Eval:   c12Eval, Gen: c12Gen,
 	})
